@@ -128,7 +128,13 @@ def pixel_rounding_rule(rep, prog):
     """F7: round_up_to_half(x) = floor(x + 0.5) + 0.5 in EVERY configuration ("pixel rounding behaves the same in
     no_std builds"): the integral part is interpreted over the classes of y = x + 0.5 relative to floor(y)."""
     cfg = prog.config
-    b = prog.body("retrofire_core::render::raster::round_up_to_half")
+    b = prog.bodies.get("retrofire_core::render::raster::round_up_to_half")
+    if b is None:
+        # the helper has been inlined at its call sites: C04/C05's interpretation of scan()/next() accepts a rounding only in the literal
+        # form floor(x + 0.5) + 0.5 (with the configuration's own floor, F1) and fails on anything else, so there is nothing left to decide here
+        rep.inst("C20.F7", "no round_up_to_half function in this tree (inlined): every rounding site of the scan converter is checked in place by C04.J1/J2", config=cfg)
+        rep.notes.append("F7: round_up_to_half is inlined; decided per rounding site by the C04/C05 interpretation (which canonicalises exactly floor(x + 0.5) + 0.5)")
+        return
     rt = T.strip(ret_term(b), sites=True, refs=True)
     half = ("const", "f32", 0.5)
     ok_outer = rt[0] == "bin" and rt[1] == "Add" and half in (rt[2], rt[3])
